@@ -670,6 +670,69 @@ func successPathsWithoutAction(p *Prog, fn *ssa.Function, ei int, acts func(b *s
 	return nPaths, nSuccess, bad
 }
 
+// r99DependsOnTableSize: v is computed (through arithmetic, conversions, phis and calls of module functions) from
+// the length or capacity of a slice held in a struct field - the table's entries; returns a description, "" if not.
+func r99DependsOnTableSize(v ssa.Value, depth int, seen map[ssa.Value]bool) string {
+	if v == nil || depth > 8 || seen[v] {
+		return ""
+	}
+	seen[v] = true
+	switch t := v.(type) {
+	case *ssa.Call:
+		if bn := builtinName(t); bn == "len" || bn == "cap" {
+			if fld, _ := fieldOf(t.Call.Args[0]); fld != nil {
+				if _, isSlice := fld.Type().Underlying().(*types.Slice); isSlice {
+					return bn + " of field " + fld.Name()
+				}
+			}
+			return ""
+		}
+		callee := t.Call.StaticCallee()
+		if callee == nil || callee.Blocks == nil || callee.Pkg == nil || !inModule(callee.Pkg.Pkg) {
+			for _, a := range t.Call.Args {
+				if d := r99DependsOnTableSize(a, depth+1, seen); d != "" {
+					return d
+				}
+			}
+			return ""
+		}
+		dep := ""
+		eachInstr(callee, func(in ssa.Instruction) {
+			if r, ok := in.(*ssa.Return); ok && dep == "" {
+				for _, x := range r.Results {
+					if d := r99DependsOnTableSize(x, depth+1, seen); d != "" {
+						dep = d
+					}
+				}
+			}
+		})
+		return dep
+	case *ssa.BinOp:
+		if d := r99DependsOnTableSize(t.X, depth+1, seen); d != "" {
+			return d
+		}
+		return r99DependsOnTableSize(t.Y, depth+1, seen)
+	case *ssa.UnOp:
+		if t.Op == token.MUL {
+			return ""
+		}
+		return r99DependsOnTableSize(t.X, depth+1, seen)
+	case *ssa.Convert:
+		return r99DependsOnTableSize(t.X, depth+1, seen)
+	case *ssa.ChangeType:
+		return r99DependsOnTableSize(t.X, depth+1, seen)
+	case *ssa.Phi:
+		for _, e := range t.Edges {
+			if d := r99DependsOnTableSize(e, depth+1, seen); d != "" {
+				return d
+			}
+		}
+	case *ssa.Extract:
+		return r99DependsOnTableSize(t.Tuple, depth+1, seen)
+	}
+	return ""
+}
+
 // ---- R81: no call through a function variable that may still be nil ----
 
 func init() {
@@ -2204,6 +2267,13 @@ func runR99(c *Ctx) {
 							}
 						})
 					}
+				}
+				// clause (c): the stored value is a function of the row alone. It is kept across growth and compared
+				// with freshly computed hashes afterwards, so it must not depend on the table's current size
+				if dep := r99DependsOnTableSize(v, 0, map[ssa.Value]bool{}); dep != "" {
+					c.bad(key+" size independent", p.instrPos(st), fmt.Sprintf("the hash stored in the entry depends on the current size of the table (%s): after a grow the same key hashes to another value, is not recognised as the key stored before and forms a second group", dep))
+				} else {
+					c.okTrivial(key+" size independent", p.instrPos(st), "the stored hash does not depend on the table's size")
 				}
 				switch {
 				case narrowed:
